@@ -45,6 +45,8 @@ const (
 	ctxCallTarget // the target is a call of a generic function: its type is known only after inference
 	ctxBareLambda // the target is an un-annotated lambda parameter (typed only by the enclosing call)
 	ctxEncodedName // the union is called G_int and a generic union G<T> is instantiated at int next to it
+	ctxGroupLater  // the union is declared later in a `type ... and ...` group than a generic union holding it; the target is that payload
+	ctxGenericSelf // the union itself is generic (payloads of T), matched at the instantiation int
 	numCtx
 )
 
@@ -136,13 +138,35 @@ func (c c09Case) source(pkg string) string {
 	if c.ctx == ctxLambda || c.ctx == ctxCallTarget || c.ctx == ctxBareLambda {
 		b.WriteString("import slice\n")
 	}
-	b.WriteString("\ntype U =\n")
+	switch {
+	case c.ctx == ctxGroupLater && c.second == nil:
+		b.WriteString("\ntype Bx<T> =\n| Full of T\n| Ref of U\n| Nil\nand U =\n")
+	case c.ctx == ctxGenericSelf && c.second == nil:
+		b.WriteString("\ntype U<T> =\n")
+	default:
+		b.WriteString("\ntype U =\n")
+	}
 	for i := 0; i < c.n; i++ {
-		if c.payload[i] {
+		if c.payload[i] && c.ctx == ctxGenericSelf && c.second == nil {
+			fmt.Fprintf(&b, "| %s of T\n", c09Names[i])
+		} else if c.payload[i] {
 			fmt.Fprintf(&b, "| %s of int\n", c09Names[i])
 		} else {
 			fmt.Fprintf(&b, "| %s\n", c09Names[i])
 		}
+	}
+	if c.ctx == ctxGenericSelf && c.second == nil {
+		b.WriteString("\ntype W =\n| Wrap of U<int>\n| Other\n\n")
+		b.WriteString("let f (u:U<int>) =\n" + c.matchLines("u", "  "))
+		b.WriteString("\nlet Run () =\n")
+		for i := 0; i < c.n; i++ {
+			if c.payload[i] {
+				fmt.Fprintf(&b, "  frt.Printf1 \"%%d\\n\" (f (%s 5))\n", c09Names[i])
+			} else {
+				fmt.Fprintf(&b, "  frt.Printf1 \"%%d\\n\" (f (%s<int> ()))\n", c09Names[i])
+			}
+		}
+		return b.String()
 	}
 	b.WriteString("\ntype W =\n| Wrap of U\n| Other\n\n")
 	if c.second != nil {
@@ -194,6 +218,9 @@ func (c c09Case) source(pkg string) string {
 		// must not be taken for the one of the union called G_int (annotated just before it)
 		b.WriteString("type G<T> =\n| Gx of T\n| Gy\n\nlet pre (g:G<int>) =\n  match g with\n  | Gx _ -> 1\n  | Gy -> 2\n\n")
 		b.WriteString("let f2 (u:U) (g:G<int>) =\n" + c.matchLines("u", "  ") + "\nlet f (u:U) =\n  f2 u (Gy<int> ())\n")
+	case ctxGroupLater:
+		// the value is typed through a constructor of the generic union, the target is the bound payload
+		b.WriteString("let f (u:U) =\n  let b = if 1 < 2 then Ref<int> u else Full 5\n  match b with\n  | Ref i ->\n" + c.matchLines("i", "    ") + "  | Full v -> 0 - v\n  | Nil -> 0 - 2\n")
 	case ctxBareLambda:
 		b.WriteString("let f (u:U) =\n  let us = [u]\n  let rs = slice.Map (fun v ->\n" + c.matchLines("v", "                        ") + "                      ) us\n  slice.Head rs\n")
 	case ctxCallTarget:
@@ -370,7 +397,7 @@ func runC09(r *core.Run, tier string) {
 		r.Inconclusive("fc does not build: " + err.Error())
 		return
 	}
-	r.Rule("a case is one file holding one match on a union value, transpiled by its own fc process: every union of 1..4 cases (thorough: 5) x every payload/no-payload mix x every non-empty duplicate-free arm sequence x every arm form (bind / `_` / no payload) x with/without default, incomplete sequences padded with duplicated arms up to the number of cases, plus a seeded sample placed in 9 nesting contexts (a union called G_int next to the instantiation G<int> of a generic union, an un-annotated lambda parameter as target, a target that is a call of a generic function, let right-hand side, if branch, inside another match arm, inside a lambda, in a piped partially applied function, after a match on another union whose arm binder carries the scrutinee's name); observed: exit status, diagnostic, presence of gen file; expected by set computation; a sample of accepted programs is compiled and run on one value per case; non-trivial = union with >= 2 cases; distinct by (union shape, arm sequence, forms, default, context)")
+	r.Rule("a case is one file holding one match on a union value, transpiled by its own fc process: every union of 1..4 cases (thorough: 5) x every payload/no-payload mix x every non-empty duplicate-free arm sequence x every arm form (bind / `_` / no payload) x with/without default, incomplete sequences padded with duplicated arms up to the number of cases, plus a seeded sample placed in 11 nesting contexts (the union declared later in a `type ... and ...` group than a generic union whose payload it is, matched as that bound payload; the union itself generic and matched at an instantiation; a union called G_int next to the instantiation G<int> of a generic union, an un-annotated lambda parameter as target, a target that is a call of a generic function, let right-hand side, if branch, inside another match arm, inside a lambda, in a piped partially applied function, after a match on another union whose arm binder carries the scrutinee's name); observed: exit status, diagnostic, presence of gen file; expected by set computation; a sample of accepted programs is compiled and run on one value per case; non-trivial = union with >= 2 cases; distinct by (union shape, arm sequence, forms, default, context)")
 	r.Assume("the match target's union type is known when the match is parsed (annotated parameter or bound variable)", "arms never repeat a case (Go rejects duplicate type-switch cases)")
 	cases := c09Enumerate(tier, core.NewRand(r.SeedV, "c09"))
 	type obs struct {
@@ -503,6 +530,53 @@ func runC09(r *core.Run, tier string) {
 		}
 		if ran == 0 {
 			r.Inconclusive("no accepted program was executed")
+		}
+	}
+	// "the never-reached panic is unreachable in accepted programs": complete matches on a generic
+	// union at one instantiation, handed a value built at ANOTHER instantiation. Whoever rejects the
+	// program (fc, or the Go compiler on the emitted code) keeps the statement; accepted, compiled and
+	// run, the value meets no arm.
+	{
+		probes := []struct{ name, body string }{
+			{"direct-argument", "let f (o:Gn<string>) =\n  match o with\n  | Gs s -> s\n  | Gz -> \"z\"\n\nlet Run () =\n  frt.Println (f (Gs 1))\n"},
+			{"let-bound-value", "let f (o:Gn<string>) =\n  match o with\n  | Gs _ -> \"s\"\n  | Gz -> \"z\"\n\nlet Run () =\n  let v = Gs 1\n  frt.Println (f v)\n"},
+			{"no-payload-case", "let f (o:Gn<string>) =\n  match o with\n  | Gz -> \"z\"\n  | Gs _ -> \"s\"\n\nlet Run () =\n  frt.Println (f (Gz<int> ()))\n"},
+		}
+		var progs []gobatch.Prog
+		for i, pb := range probes {
+			name := fmt.Sprintf("p%d", 900000+i)
+			src := "package " + name + "\n\nimport frt\n\ntype Gn<T> =\n| Gs of T\n| Gz\n\n" + pb.body
+			d := filepath.Join(base, "probe", name)
+			out := fcx.Transpile(fc, env.PkgAll(), d, map[string]string{"m.fo": src}, []string{"m.fo"}, nil, 20)
+			os.RemoveAll(d)
+			if g, ok := out.Gen["gen_m.go"]; ok && out.Res.Exit == 0 {
+				progs = append(progs, gobatch.Prog{Name: name, Files: map[string]string{"gen_m.go": g, "m.fo": src}})
+			} else {
+				r.Count("instantiation_mismatch_probes_rejected_by_fc", 1)
+			}
+		}
+		if len(progs) > 0 {
+			br := gobatch.Run(env, "c09probe", progs, 120)
+			if br.Inconcl != "" {
+				r.Inconclusive("probe batch: " + br.Inconcl)
+			}
+			for _, pg := range progs {
+				var idx int
+				fmt.Sscanf(pg.Name, "p%d", &idx)
+				pb := probes[idx-900000]
+				r.Eval("instantiation-mismatch:"+pb.name, true)
+				switch {
+				case br.CompileErr[pg.Name] != "":
+					r.Count("instantiation_mismatch_probes_rejected_by_the_go_compiler", 1)
+				case strings.Contains(br.Panic[pg.Name], "Never reached"):
+					r.Count("instantiation_mismatch_probes_reaching_the_never_reached_panic", 1)
+					r.Violate("never-reached:generic-union-instantiation-mismatch:"+pb.name, "accepted program (by fc and by the Go compiler) reaches the never-reached panic: a complete match on Gn<string> is handed a Gn<int> value: "+oneLineN(br.Panic[pg.Name], 120), pg.Files)
+				case br.Panic[pg.Name] != "" || br.Died[pg.Name] != "":
+					r.Violate("accepted-match-panics:probe:"+pb.name, "accepted program dies: "+oneLineN(br.Panic[pg.Name]+br.Died[pg.Name], 200), pg.Files)
+				default:
+					r.Count("instantiation_mismatch_probes_that_ran_without_panic", 1)
+				}
+			}
 		}
 	}
 	r.Set("must_accept", nAccept)
